@@ -71,7 +71,8 @@ class SequentialCB(Evaluator):
     def _required(self, has_score:bool) -> set:
         learn,eval = self._learn,self._eval
 
-        pred = (learn and learn != 'off') or (eval and (eval != 'ips' or not has_score))
+        outs = eval and ('action' in self._record or 'probability' in self._record)
+        pred = (learn and learn != 'off') or (eval and (eval != 'ips' or not has_score)) or outs
         off  = (learn and learn != 'on')  or (eval and eval != 'on')
         rwds = (learn == 'on')            or (eval == 'on')
 
